@@ -22,6 +22,9 @@ var errSymCodec = errors.New("symcodec: bad input")
 
 func symMarshal(i interface{}) ([]byte, error) {
 	switch v := i.(type) {
+	case nil:
+		// an untyped nil element (Insert(ctx, key, nil)): like JSON, the marshaler has a spelling for it
+		return []byte("null"), nil
 	case symKey:
 		b := make([]byte, 8)
 		verifPutU64(b, v.id)
@@ -300,6 +303,8 @@ func (c *vCache) idx(key interface{}) int {
 	return -1
 }
 func (c *vCache) Add(key, value interface{}) {
+	cacheLock(c)
+	defer cacheUnlock(c)
 	if c.frozen {
 		return
 	}
@@ -314,8 +319,14 @@ func (c *vCache) Add(key, value interface{}) {
 		c.vals = c.vals[1:]
 	}
 }
-func (c *vCache) Contains(key interface{}) bool { return c.idx(key) >= 0 }
+func (c *vCache) Contains(key interface{}) bool {
+	cacheLock(c)
+	defer cacheUnlock(c)
+	return c.idx(key) >= 0
+}
 func (c *vCache) Get(key interface{}) (interface{}, bool) {
+	cacheLock(c)
+	defer cacheUnlock(c)
 	if i := c.idx(key); i >= 0 {
 		return c.vals[i], true
 	}
